@@ -1,4 +1,5 @@
 from mindsdb_sql.parser.ast.base import ASTNode
+from mindsdb_sql.parser.ast.select.operation import param_to_string
 from mindsdb_sql.parser.utils import indent
 
 
@@ -32,7 +33,7 @@ class CreateMLEngine(ASTNode):
     def get_string(self, *args, **kwargs):
         using_str = ''
         if self.params is not None:
-            using_ar = [f'{k}={repr(v)}' for k, v in self.params.items()]
+            using_ar = [f'{k}={param_to_string(v)}' for k, v in self.params.items()]
 
             using_str = 'USING ' + ', '.join(using_ar)
 
